@@ -6,31 +6,48 @@
 (* sites), R (string requires), L (long strings) such that every sample is  *)
 (* exactly what the gates of Version.tla prescribe.                          *)
 (***************************************************************************)
-EXTENDS Version, TLC, Json, IOUtils
+EXTENDS Version, GatedContent, Json, IOUtils
 
 Rec == ndJsonDeserialize(IOEnv.TRACE)
 
 VARIABLES l, bad
 vars == <<l, bad>>
 
-SetOf(s) == {s[i] : i \in 1 .. Len(s)}
 Ver(smp) == <<smp.ver[1], smp.ver[2], smp.ver[3]>>
 
 AcceptProgram(r) ==
-    LET N == 1 .. Len(r.samples)
-        S == UNION {SetOf(r.samples[i].pre) \cup SetOf(r.samples[i].post) : i \in N}
-        R == UNION {SetOf(r.samples[i].se) : i \in N}
-        L == UNION {SetOf(r.samples[i].srs) : i \in N}
+    LET Idx == 1 .. Len(r.samples)
+        S == UNION {SetOf(r.samples[i].pre) \cup SetOf(r.samples[i].post) : i \in Idx}
+        R == UNION {SetOf(r.samples[i].se) : i \in Idx}
+        L == UNION {SetOf(r.samples[i].srs) : i \in Idx}
         On(d, smp, X) == IF Gate(d, Ver(smp)) THEN X ELSE {}
     IN  /\ L \subseteq R
-        /\ \A i \in N :
+        /\ \A i \in Idx :
              LET smp == r.samples[i] IN
              /\ SetOf(smp.pre)  = On("safe_math_pre_080", smp, S)
              /\ SetOf(smp.post) = On("safe_math_post_080", smp, S)
              /\ SetOf(smp.se)   = On("string_errors", smp, R)
              /\ SetOf(smp.srs)  = On("short_revert_string", smp, L)
 
-Accept(r) == CASE r.k = "program" -> AcceptProgram(r) [] OTHER -> FALSE
+\* ... and, when the record carries the projected tree of the program (lines shifted by r.shift when a pragma line had to
+\* be put in front), the sets are the ones GatedContent.tla derives from the tree
+Shifted(X, k) == {x + k : x \in X}
+AcceptContent(r) ==
+    LET T == r.tree
+        S == Shifted(SafeMathLines(T), r.shift)
+        R == Shifted(StringReqLines(T), r.shift)
+        Lmust == Shifted(LongMustLines(T), r.shift)
+        Lmay == Shifted(LongMayLines(T), r.shift)
+        On(d, smp, X) == IF Gate(d, Ver(smp)) THEN X ELSE {}
+    IN \A i \in 1 .. Len(r.samples) :
+         LET smp == r.samples[i] IN
+         /\ SetOf(smp.pre)  = On("safe_math_pre_080", smp, S)
+         /\ SetOf(smp.post) = On("safe_math_post_080", smp, S)
+         /\ SetOf(smp.se)   = On("string_errors", smp, R)
+         /\ On("short_revert_string", smp, Lmust) \subseteq SetOf(smp.srs)
+         /\ SetOf(smp.srs) \subseteq On("short_revert_string", smp, Lmay)
+
+Accept(r) == CASE r.k = "program" -> AcceptProgram(r) /\ (r.tree_ok => AcceptContent(r)) [] OTHER -> FALSE
 
 Init == l = 1 /\ bad = <<>>
 Next == /\ l <= Len(Rec)
